@@ -1,0 +1,8 @@
+//! Read-only verification hooks (feature `verif`).
+//!
+//! Nothing in here changes the behaviour of the library: the module only
+//! exposes internals (the compiled automaton and the online toposort) so that
+//! external verification machinery can inspect them.
+
+pub use crate::automaton::verif::{StateDump, TransitionDump};
+pub use crate::utils::verif_toposort::{online_toposort, OnlineToposort};
